@@ -6,6 +6,9 @@ CLAIMED = {
             "interpolate_defaults with the characters of the value text, the prose and the int/bool value as solver variables; "
             "every counterexample replayed on plain CPython", "DESIGN.md#c17"),
 }
+CLAIMED["C15"] = ("dotted locations: annotate_ancestry / find_in_ast / RewriteAtQuery executed symbolically on hand-built modules whose identifiers and "
+    "search segments are solver variables (the solver chooses which names coincide across scopes), judged against an independent resolver over ast",
+    "DESIGN.md#c15")
 NA = {
     "C19": "gen: every data path crosses importlib / inspect.getsource / compile+exec / file output, no symbolic data path is left; what remains is enumeration of a few concrete configurations, which is not this technique (DESIGN.md §C19)",
 }
